@@ -34,9 +34,9 @@ NAMED = ["fnr", "fpr", "tpr", "tnr", "topr", "tonr"]
 def bounds(tier):
     if tier == "quick":
         return {"max_len": 4, "x": XS, "y": YS, "targets": TARGETS, "scores_max": [3, 3],
-                "points": ["None", 2, 3, 7, "array"]}
+                "points": ["None", 2, 3, 7, "array"], "unit_points": [50, 99, 104]}
     return {"max_len": 5, "x": XS, "y": YS, "targets": TARGETS, "scores_max": [4, 3],
-            "points": ["None", 2, 3, 7, 11, "array"]}
+            "points": ["None", 2, 3, 7, 11, "array"], "unit_points": list(range(2, 200))}
 
 
 def curves(max_len):
@@ -145,6 +145,15 @@ def run(item, ctx, tier, seed):
                                 f"print(invert_pl_function({x!r}, {y!r}, {t!r}))\n")
                         judge(ctx, dict(case, t=t), x, y, t, sol, snip)
                         ctx.outcome((len(np.asarray(sol).reshape(-1)), min(y) <= t <= max(y)))
+            xa_, ya_ = np.array(x), np.array(y)
+            ok, res2 = guarded(ctx, "ndarray-call", case, invert_pl_function, xa_, ya_, np.array(TARGETS))
+            ctx.tick()
+            if ok:
+                for r_ in res2:
+                    if isinstance(r_, np.ndarray) and r_.flags.writeable:
+                        r_ += 1000.0
+                if not (np.array_equal(xa_, np.array(x)) and np.array_equal(ya_, np.array(y))):
+                    ctx.fail("results-do-not-alias-inputs", case, observed=[xa_, ya_], expected=[x, y])
             for t in TARGETS[::2]:
                 ok, sol = guarded(ctx, "scalar-call", dict(case, t=t), invert_pl_function, np.array(x), np.array(y), t)
                 ctx.tick()
@@ -158,8 +167,16 @@ def run(item, ctx, tier, seed):
         return None
     # ------------------------------------------------------------------ Scores.threshold_at_metric
     blocks = [tuple(v) for v in item["blocks"]]
-    for grid in ("irregular", "int"):
+    for grid in ("irregular", "int", "unit"):
         pos, neg, vals = ot.concretise(blocks, grid, seed)
+        if grid == "unit":
+            # scores in [0,1] whose largest value is 1.0 exactly: whether an evenly spaced grid of k points
+            # ends exactly on the largest score depends on k
+            m_ = len(vals)
+            if m_ < 2:
+                continue
+            mp = {v: (i / (m_ - 1)) for i, v in enumerate(vals)}
+            pos, neg, vals = [mp[v] for v in pos], [mp[v] for v in neg], [mp[v] for v in vals]
         distinct = len(vals)
         for cfg in ot.CFGS[:2] if grid == "int" else ot.CFGS:
             sc, ec = cfg
@@ -176,7 +193,7 @@ def run(item, ctx, tier, seed):
                 if not pos and not neg and mname in ("topr", "tonr"):
                     continue
                 metric = callables.get(mname, mname)
-                for pt in b["points"]:
+                for pt in (b["points"] if grid != "unit" else (b["unit_points"] if mname in ("fnr", "fpr", "|fnr-fpr|") else [])):
                     case = {"pos": pos, "neg": neg, "cfg": cfg, "metric": mname, "points": pt}
                     allsc = sorted(pos + neg)
                     if pt == "None":
@@ -194,6 +211,7 @@ def run(item, ctx, tier, seed):
                             lo, hi = float(vals[0]), float(vals[-1])
                             xs = np.linspace(lo, hi, pt, endpoint=True).tolist()
                     targets = [-0.5, 0.0, 0.25, 1.0 / 3.0, 0.5, 0.75, 1.0, 1.5]
+                    points_before = None if not isinstance(points, np.ndarray) else points.copy()
                     try:
                         res = s.threshold_at_metric(targets, metric, points)
                         err = None
@@ -219,6 +237,16 @@ def run(item, ctx, tier, seed):
                     if len(res) != len(targets):
                         ctx.fail("one-entry-per-target", case, observed=len(res), expected=len(targets))
                         continue
+                    if points_before is not None:
+                        # the caller post-processes the returned thresholds in place; its points array must not move
+                        for r_ in res:
+                            if isinstance(r_, np.ndarray) and r_.flags.writeable:
+                                r_ += 1000.0
+                        if not np.array_equal(points, points_before):
+                            ctx.fail("results-do-not-alias-supplied-points", case, observed=points, expected=points_before)
+                        for r_ in res:
+                            if isinstance(r_, np.ndarray) and r_.flags.writeable:
+                                r_ -= 1000.0
                     for t, sol in zip(targets, res):
                         ctx.tick()
                         if min(ya) <= t <= max(ya):
